@@ -71,7 +71,8 @@ def programs(draw, tier):
     ops = []
     for _ in range(draw(st.integers(2, 12 if tier == "quick" else 24))):
         kind = draw(st.sampled_from(["save", "save", "save_again", "load", "load", "autoload", "randomise", "reinit", "train", "reserved", "model_saver"]))
-        op = {"op": kind, "m": draw(st.integers(0, len(models) - 1)), "f": draw(st.integers(0, nfiles - 1)), "md": draw(st.integers(0, len(metas) - 1))}
+        op = {"op": kind, "m": draw(st.integers(0, len(models) - 1)), "f": draw(st.integers(0, nfiles - 1)), "md": draw(st.integers(0, len(metas) - 1)),
+              "loc": draw(st.sampled_from(["str", "str", "path", "fileobj"]))}     # documented: "location: str or file"
         if kind == "reserved":
             op["key"] = draw(st.sampled_from(["rbm_am", "rbm_ph", "unitary_dict"]))
         if kind == "load":
@@ -149,6 +150,17 @@ def check(case):
     saves_seen = set()
     with tempfile.TemporaryDirectory(prefix="vf_c11_") as tmp:
         path = lambda j: os.path.join(tmp, f"model_{j}.pt")
+
+        def with_loc(j, mode, form, fn):
+            """call fn(location) with the location given as str, pathlib.Path or an open binary file object"""
+            import pathlib
+            if form == "path":
+                return fn(pathlib.Path(path(j)))
+            if form == "fileobj":
+                with open(path(j), mode) as fh:
+                    return fn(fh)
+            return fn(path(j))
+
         for op in case["ops"]:
             mi, fj = op["m"], op["f"]
             spec, state, md = case["models"][mi], states[mi], metas[op["md"]]
@@ -178,7 +190,8 @@ def check(case):
                     state.save(path(fj), md)
                     saves_seen.add((mi, op["md"]))
                 before_p, before_u, before_md = params_of(state), udict_of(state), copy.deepcopy(md)
-                state.save(path(fj), md)
+                with_loc(fj, "wb", op.get("loc", "str"), lambda loc: state.save(loc, md))
+                labels.add("loc=" + op.get("loc", "str"))
                 if (mi, op["md"]) in saves_seen:
                     labels.add("second_save_same_metadata")
                     if has_ud and md:
@@ -207,10 +220,10 @@ def check(case):
                     else:
                         how = "fresh" if how == "self" else how
                         tgt = fresh_like(rec["spec"], how)
-                    tgt.load(path(fj))
+                    with_loc(fj, "rb", op.get("loc", "str"), lambda loc: tgt.load(loc))
                     labels.add("load_target=" + how)
                 else:
-                    tgt = cls[rec["spec"]["type"]].autoload(path(fj), gpu=False)
+                    tgt = with_loc(fj, "rb", op.get("loc", "str"), lambda loc: cls[rec["spec"]["type"]].autoload(loc, gpu=False))
                     s_ = rec["spec"]
                     if s_["nh"] != s_["n"] and gen.all_biases_nonzero(s_):
                         nt = True
